@@ -13,7 +13,7 @@ using Pub = cocls::publisher<long>;
 using Sub = cocls::subscriber<long>;
 using ST = cocls::subscribtion_type;
 const char *mode_name(ST t) { return t == ST::all_values ? "all" : t == ST::skip_if_behind ? "skip_if_behind" : "skip_to_recent"; }
-enum { PUBLISHED = 0, CLOSED = 1, PUB_STARTED = 4, EAGER_N = 2, EAGER_EOS = 3, EAGER_LOG = 100, RD_N = 1000 /* per reader count */, RD_EOS = 1010, RD_SUBPOS_LO = 1020, RD_SUBPOS_HI = 1030, RD_KICKED = 1040, RD_LOG = 2000 /* 200 per reader */ };
+enum { PUBLISHED = 0, CLOSED = 1, PUB_STARTED = 4, EAGER_N = 2, EAGER_EOS = 3, EAGER_LOG = 100, RD_N = 1000 /* per reader count */, RD_EOS = 1010, RD_SUBPOS_LO = 1020, RD_SUBPOS_HI = 1030, RD_KICKED = 1040, RD_LASTPOS = 1050, RD_LOG = 2000 /* 200 per reader */ };
 
 // eager coroutine reader: consumes everything as soon as it is published
 cocls::async<void> eager_reader(Sub &s) {
@@ -111,9 +111,15 @@ void single_thread() {
 }
 
 // ================================================================== one publisher thread against subscriber threads
-void reader_record(int i, long v) { dsim::event("read", i, v); long k = dsim::cell_add(RD_N + i, 1) - 1; if (k < 200) dsim::cell_set(RD_LOG + 200 * i + (int)k, v); }
+// every read is followed by position(): it must move strictly forward (the reader's own accessor, called while other threads subscribe and publish)
+void reader_record(int i, long v, Sub &s) {
+    dsim::event("read", i, v);
+    long pos = (long)s.position(), last = dsim::cell_xchg(RD_LASTPOS + i, pos);
+    if (pos <= last) dsim::fail("C16.not_forward", "reader %d: position() went from %ld to %ld", i, last, pos);
+    long k = dsim::cell_add(RD_N + i, 1) - 1; if (k < 200) dsim::cell_set(RD_LOG + 200 * i + (int)k, v);
+}
 cocls::async<void> coro_reader(Sub &s, int i) {
-    for (;;) { bool ok = co_await s.next(); if (!ok) break; reader_record(i, s.value()); }
+    for (;;) { bool ok = co_await s.next(); if (!ok) break; reader_record(i, s.value(), s); }
     dsim::cell_set(RD_EOS + i, dsim::cell_get(PUBLISHED) + 1);
 }
 
@@ -126,7 +132,7 @@ struct CbReader : cocls::awaiter {
     cocls::suspend_point<void> after_wake() {
         auto a = s.next();
         if (!a.await_resume()) return done();
-        reader_record(i, s.value());
+        reader_record(i, s.value(), s);
         return pump();
     }
     cocls::suspend_point<void> pump() {
@@ -134,7 +140,7 @@ struct CbReader : cocls::awaiter {
             auto a = s.next();
             if (!a.await_ready() && a.subscribe(this)) return {};       // parked: the publisher will call fire()
             if (!a.await_resume()) return done();
-            reader_record(i, s.value());
+            reader_record(i, s.value(), s);
         }
     }
 };
@@ -165,13 +171,13 @@ void multi_thread() {
         dsim::cell_set(RD_SUBPOS_HI + i, dsim::cell_get(PUB_STARTED) + 1);     // publishes STARTED when subscribe returned (+1: marks "set")
         switch (kind[i]) {
         case 0: coro_reader(s, i).join(); break;
-        case 1: while (s.next()) reader_record(i, s.value()); break;
-        case 2: for (long v : s) reader_record(i, v); break;
+        case 1: while (s.next()) reader_record(i, s.value(), s); break;
+        case 2: for (long v : s) reader_record(i, v, s); break;
         case 4: { CbReader r(s, i); cocls::future<void> fin; r.done = fin.get_promise(); r.pump(); fin.wait(); break; }
         default:
             for (;;) {
                 long c = dsim::cell_get(CLOSED), kk = dsim::cell_get(RD_KICKED + i);   // sampled BEFORE the poll
-                if (s.next_ready()) { reader_record(i, s.value()); continue; }
+                if (s.next_ready()) { reader_record(i, s.value(), s); continue; }
                 if (c == 2 || kk == 1) break;          // close()/kick() had returned before this poll began: false means end-of-stream
                 std::this_thread::yield();
             }
